@@ -456,3 +456,105 @@ func genCleanupFault(g *lib.RNG, kind string) []Op {
 	}
 	return s.ops
 }
+
+// appendFailKinds: the ways the k-th append into a log that already holds acknowledged batches is made to fail.
+var appendFailKinds = []string{"append:0", "append:1", "append:6", "append:7", "append:10", "append:11", "append:12", "append:20", "append:35",
+	"append:400", "append:1500", "prewrite", "fsync", "norepair:1", "norepair:7", "norepair:30", "fsync-norepair", "close:fsync", "close:append:7", "close:fsync-norepair"}
+
+// genAppendFail: k-1 flushes succeed into ONE log (the writer stays open), then the k-th append fails in
+// the given way (write error part-way, before the write, fsync reported as failed, with / without a failing
+// tail repair; inside Flush or inside Close). The acknowledged prefix of that log must survive byte for byte
+// (runner.chunkAfterOp) and every restart must recover exactly it; then the retry (a new log), more batches,
+// restarts, crashes. `fat`: the batches are sized so that the failing one crosses a 32 KiB block boundary.
+func genAppendFail(g *lib.RNG, k int, kind string, fat bool) []Op {
+	s := &genState{g: g, faults: true, cur: uint64(lib.Pick(g, []int{1, 1, 4}))}
+	s.open()
+	if g.Intn(3) == 0 {
+		// an older process lifetime: the log that fails is not the first one
+		s.set(s.cur)
+		s.emit(Op{K: "close"})
+		s.open()
+	}
+	batch := func(n int) {
+		for i := 0; i < n; i++ {
+			h := s.cur
+			if g.Intn(6) == 0 {
+				h = s.cur + 1
+			}
+			s.set(h)
+		}
+		if s.cur > 1 && g.Intn(3) == 0 {
+			s.del(s.cur - 1)
+		}
+		if g.Bool() {
+			s.cur++
+		}
+	}
+	for j := 1; j < k; j++ {
+		n := g.Range(1, 4)
+		if fat && j == k-1 {
+			// ≈ 62 bytes per entry on average: this batch ends a little before the 32 KiB boundary
+			n = g.Range(480, 525)
+		}
+		batch(n)
+		s.emit(Op{K: "flush"})
+	}
+	if fat {
+		batch(g.Range(80, 120)) // at least 1.7 kB: the largest limit (1500 bytes) still cuts the write short
+	} else {
+		batch(g.Range(1, 4))
+	}
+	o := Op{K: "flush"}
+	f := kind
+	if strings.HasPrefix(f, "close:") {
+		o.K, f = "close", strings.TrimPrefix(f, "close:")
+	}
+	if i := strings.Index(f, ":"); i >= 0 {
+		n := 0
+		for _, c := range f[i+1:] {
+			n = n*10 + int(c-'0')
+		}
+		if !fat && n > 35 {
+			n = 35 // a small batch is at least 43 bytes long
+		}
+		o.F, o.S = f[:i], n
+	} else {
+		o.F = f
+	}
+	s.emit(o)
+	blocked := strings.HasSuffix(o.F, "norepair")
+	if o.K == "close" {
+		s.open()
+		blocked = false
+	}
+	// the retry and what follows
+	for i := g.Range(3, 7); i > 0; i-- {
+		switch x := g.Intn(10); {
+		case x < 4:
+			if blocked && g.Bool() {
+				s.emit(Op{K: "flush"}) // refused: the writer is blocked until a restart
+			}
+			if blocked {
+				if g.Bool() {
+					s.emit(Op{K: "close"})
+				} else {
+					s.emit(Op{K: "crash", C: "idle", T: s.tail()})
+				}
+				s.open()
+				blocked = false
+			}
+			s.emit(Op{K: "flush"})
+		case x < 6:
+			batch(g.Range(1, 3))
+			s.emit(Op{K: "flush"})
+		case x < 8 && !blocked:
+			s.emit(Op{K: "crash", C: lib.Pick(g, []string{"idle", "flush", "close"}), I: g.Intn(8), T: s.tail()})
+			s.open()
+		default:
+			s.emit(Op{K: "close"})
+			s.open()
+			blocked = false
+		}
+	}
+	return s.ops
+}
